@@ -35,13 +35,14 @@ def crc_step_exhaustive(tmp, tier, seed, goenv):
 
 
 PROP = {
-    "coq": ["C06", "C06b", "C06c", "C06s", "C06t"],
+    "coq": ["C06", "C06b", "C06c", "C06s", "C06t", "C06d"],
     "pre": [regen_src],
     "extra": [crc_step_exhaustive, replay_src({'crc'})],
     "exhaustive": True,
     "rule": "CRC: the complete one-byte transition function (2^24 pairs) is compared exhaustively; whole-string, "
             "chunked and acceptance-test entry points on structured and random strings of length 0..300. Client level (scenario rtuflip): valid RTU replies of random valid requests under single-bit flips (all for frames <= 16 bytes, strided above), 24 random bit pairs, 16 random bursts <= 16 bits, 4 random CRC fields, plus the crafted F8 family; each followed by a clean exchange; P = first call not a success and second call a success."
-            " Scenario rtufliptail (real deadlines): the reply with its byte count flipped 04->00 is rejected after 5 bytes, its tail arrives 10 ms after the request (inside the 256-character quiet period at 19200 bps); the next exchange must succeed. Scenario rtusess (real deadlines, 9600/19200 bps): three kinds of single-bit corruption that make the client reject the reply before all of its bytes are there (byte count -> 0, unknown function code, exception bit); the tail arrives 5 ms .. (quiet period - 50 ms) after the client took the head off the line, or only after call 1 returned (control); oracle: the extracted timed session model tm_rtu_session on the nominal schedule.",
+            " Scenario rtufliptail (real deadlines): the reply with its byte count flipped 04->00 is rejected after 5 bytes, its tail arrives 10 ms after the request (inside the 256-character quiet period at 19200 bps); the next exchange must succeed. Scenario rtusess (real deadlines, 9600/19200 bps): three kinds of single-bit corruption that make the client reject the reply before all of its bytes are there (byte count -> 0, unknown function code, exception bit); the tail arrives 5 ms .. (quiet period - 50 ms) after the client took the head off the line, or only after call 1 returned (control); oracle: the extracted timed session model tm_rtu_session on the nominal schedule."
+            " Scenario rtuseq (first clause over sequences): sessions of 2..8 calls on ONE client / one RTU transport (scripted connection; rtuovertcp and rtuoverudp opened on loopback) where a call is fresh, the previous one repeated, the same kind / address / size with other data (all items redrawn, or one bit of the first / last / a random item), the same call for another unit id, under another byte / word order, or at the next address; the peer answers a frame iff it ends with the bit-serial CRC-16 of its preceding bytes; oracle: rtuseq_run of the extracted Model/RtuSeq.v; P = every frame the device received ends with its own CRC-16 (ends_with_crcb of Spec/RtuSeqSpec.v) and every request the device was ready to answer is a success (theorems C06d).",
     "assumptions": [],
 }
 
